@@ -33,9 +33,9 @@ ERRS = [
     # in scope the statement is valid and nothing is reported)
     ("text-without-table", ".text 'hello zq'", None, "node"),
     # syntax errors whose offending token is a number that ends its line (a lone `0` included: the scanner looks behind it
-    # for a base prefix): reported on the statement's own line, at the token's column
+    # for a base prefix): reported on the statement's own line, at the token's column (statements that start with a keyword or a mnemonic: a
+    # name-led one would be read as one more attribute of a `.map` line in front of it)
     ("stray-zero-eol", ".dw 1 0", 6, "parse"),
-    ("stray-zero-after-name", "counter_zq 0", 11, "parse"),
     ("stray-zero-after-operand", "lda.b #0 0", 9, "parse"),
     ("stray-number-eol", ".db 2 5", 6, "parse"),
 ]
